@@ -66,6 +66,12 @@ func findingWitnesses() map[string]c19In {
 			c.Noise = "invalid-after:prefix"
 			return c
 		}(),
+		"F16-invalid-fallback-erases-valid-one": func() c19In {
+			c := st(`@counter-style s0 { system: fixed; symbols: a b; fallback: lower-roman; fallback: "Q" }`,
+				[]StyleDef{{Name: "s0", System: "fixed", Symbols: []string{"a", "b"}, Fallback: sp("lower-roman")}}, "s0", 1, 2, 3)
+			c.Noise = "invalid-after:fallback"
+			return c
+		}(),
 		"F17-circle-square-disclosure-overridable": func() c19In {
 			c := st(`@counter-style circle { system: cyclic; symbols: "Q"; suffix: "}}" }`, nil, "circle", 1, 2)
 			c.Noise = "reserved-name-rule:circle"
